@@ -294,6 +294,21 @@ fn static_templates(input: &str) -> Vec<(&'static str, (Option<String>, Vec<Stri
     let plain = just::<_, &str, E>('a').repeated().at_least(1).to_slice().then(just('b').or(just('c'))).to_slice().map(|s: &str| s.to_string());
     let memo = just::<_, &str, E>('a').memoized().repeated().at_least(1).to_slice().memoized().then(just('b').memoized().or(just('c'))).to_slice().map(|s: &str| s.to_string());
     out.push(("static/inline-repeated", canon(memo.parse(input)), canon(plain.parse(input))));
+    // distinct memoized parsers stored NEXT TO EACH OTHER (elements of a Vec / an array / a tuple handed to choice): their
+    // addresses differ by a small stride, and they meet at positions that differ by small amounts
+    let tail = || any::<&str, E>().to_slice();
+    let plain = choice(vec![just::<_, &str, E>("a"), just("b")]).or(tail()).repeated().collect::<Vec<&str>>().map(|v| v.join("|"));
+    let memo = choice(vec![just::<_, &str, E>("a").memoized(), just("b").memoized()]).or(tail()).repeated().collect::<Vec<&str>>().map(|v| v.join("|"));
+    out.push(("static/adjacent-in-vec", canon(memo.parse(input)), canon(plain.parse(input))));
+    let plain = choice([just::<_, &str, E>("ab"), just("b"), just("a"), just("ba")]).or(tail()).repeated().collect::<Vec<&str>>().map(|v| v.join("|"));
+    let memo = choice([just::<_, &str, E>("ab").memoized(), just("b").memoized(), just("a").memoized(), just("ba").memoized()]).or(tail()).repeated().collect::<Vec<&str>>().map(|v| v.join("|"));
+    out.push(("static/adjacent-in-array", canon(memo.parse(input)), canon(plain.parse(input))));
+    let plain = choice((just::<_, &str, E>('a'), just('b'), just('c'))).or(any()).repeated().collect::<String>();
+    let memo = choice((just::<_, &str, E>('a').memoized(), just('b').memoized(), just('c').memoized())).or(any()).repeated().collect::<String>();
+    out.push(("static/adjacent-in-tuple", canon(memo.parse(input)), canon(plain.parse(input))));
+    let plain = just::<_, &str, E>('a').or_not().then(just('b').or_not()).then(just('x').or_not()).to_slice().filter(|s: &&str| !s.is_empty()).repeated().at_most(64).collect::<Vec<&str>>().then_ignore(any().repeated()).map(|v| v.join("|"));
+    let memo = just::<_, &str, E>('a').memoized().or_not().then(just('b').memoized().or_not()).then(just('x').memoized().or_not()).to_slice().filter(|s: &&str| !s.is_empty()).repeated().at_most(64).collect::<Vec<&str>>().then_ignore(any().repeated()).map(|v| v.join("|"));
+    out.push(("static/adjacent-in-sequence", canon(memo.parse(input)), canon(plain.parse(input))));
     out
 }
 
@@ -398,7 +413,25 @@ pub fn run(tier: Tier, seed: u64) -> i32 {
         Ok(())
     });
     // statically typed templates
-    let sstrings = all_strings(&['a', 'b', 'c'], ctx.pick(4, 6));
+    let mut sstrings = all_strings(&['a', 'b', 'c'], ctx.pick(4, 6));
+    {
+        // longer strings for the templates whose parsers sit a few bytes apart (generation only: a fixed xorshift stream)
+        let mut x: u64 = 0x9e3779b97f4a7c15;
+        for _ in 0..ctx.pick(600, 6000) {
+            x ^= x << 13;
+            x ^= x >> 7;
+            x ^= x << 17;
+            let len = 8 + (x % 41) as usize;
+            let mut v = vec![];
+            for _ in 0..len {
+                x ^= x << 13;
+                x ^= x >> 7;
+                x ^= x << 17;
+                v.push(['a', 'b', 'x', 'x', 'c', 'a'][(x % 6) as usize]);
+            }
+            sstrings.push(v);
+        }
+    }
     ctx.par_jobs(&sstrings, |toks, l| {
         let s: String = toks.iter().collect();
         for (name, memo, plain) in static_templates(&s) {
